@@ -13,7 +13,7 @@ import (
 
 func init() {
 	register("C12", propMeta{
-		Explanation:  "Decides the structure store creation/removal relies on: (R1) common.NewBtree logs the createStore step before StoreRepository.Add, marks the backend as created (created=true) only on the success edge of that Add, and every other construction passes false; the live rollback removes exactly the backends marked created, under committedState >= createStore; (R2) remove-only-what-you-created: every StoreRepository.Remove call in package common is one of the three justified sites - the live rollback (guarded by the created flag), the replay of a dead transaction's createStore log record, and NewBtree's cleanup after a failed Add, which must be conditioned on a re-read of the store showing that nothing readable exists or that the store found carries this transaction's pre-assigned root node id (never unconditional: the Add also fails when a concurrent creator won); (R3) in fs.StoreRepository.Add and Remove the whole read-modify-write of the store list (GetAll, the duplicate-name test, the list write) happens after the store-list lock was acquired and the lock is released by a deferred Unlock; Add rejects a name already in the list before writing anything; (R4) removing a store reaches the recursive folder removal and drops the name from the list: infs.RemoveBtree reaches fs.StoreRepository.Remove, which calls removeStore for every name, evicts the cached StoreInfo and rewrites the list. R1 also requires that nothing but committedState comparisons, the created flag and the loop over the backends gates the removal of created stores in the live rollback.",
+		Explanation:  "Decides the structure store creation/removal relies on: (R1) common.NewBtree logs the createStore step before StoreRepository.Add, marks the backend as created (created=true) only on the success edge of that Add, and every other construction passes false; the live rollback removes exactly the backends marked created, under committedState >= createStore; (R2) remove-only-what-you-created: every StoreRepository.Remove call in package common is one of the three justified sites - the live rollback (guarded by the created flag), the replay of a dead transaction's createStore log record, and NewBtree's cleanup after a failed Add, which must be conditioned on a re-read of the store showing that nothing readable exists or that the store found carries this transaction's pre-assigned root node id (never unconditional: the Add also fails when a concurrent creator won); (R3) in fs.StoreRepository.Add and Remove the whole read-modify-write of the store list (GetAll, the duplicate-name test, the list write) happens after the store-list lock was acquired and the lock is released by a deferred Unlock; Add rejects a name already in the list before writing anything; (R4) removing a store reaches the recursive folder removal and drops the name from the list: infs.RemoveBtree reaches fs.StoreRepository.Remove, which calls removeStore for every name, evicts the cached StoreInfo and rewrites the list. R1 also requires that nothing but committedState comparisons, the created flag and the loop over the backends gates the removal of created stores in the live rollback. (R5) in the replay of a dead transaction's log, a createStore record that names a store always reaches StoreRepository.Remove: nothing but the test for the record's payload stands between the key test and the removal.",
 		DoesNotCover: "That a recreated store starts empty with the new options (runtime contents), concurrent creation across processes with a failing lock service, and the Cassandra StoreRepository sibling are not decided.",
 	}, runC12)
 }
@@ -361,5 +361,74 @@ func runC12(c *Ctx) {
 		c.Analysed(fm)
 		okRA := w.Reaches(fm, func(cs *CallSite) bool { return strings.HasSuffix(cs.Key, ".RemoveAll") })
 		c.Check(okRA, r4, "removeStore removes the folder recursively", fm.Decl.Pos(), "reaches RemoveAll", "the store folder is not removed recursively (old blobs/registry segments survive into a recreated store)", nil)
+	}
+
+	r5 := c.Rule("R5", "the replay of a dead transaction's log removes the store that transaction created whenever the createStore record names one: nothing but the presence of the record's payload gates the removal", 2)
+	{
+		f := w.Fn(kTLRollback)
+		g := w.G(f)
+		c.Analysed(f)
+		info := f.Pkg.TypesInfo
+		createStore := w.Object("common", "createStore")
+		keyC := g.condNodes(func(e ast.Expr) bool {
+			be, ok := e.(*ast.BinaryExpr)
+			return ok && be.Op == token.EQL && mentionsObj(info, be.Y, createStore)
+		})
+		val := w.Field("sop", "KeyValuePair", "Value")
+		isPayloadTest := func(n *GNode) bool {
+			be, ok := n.Ast.(*ast.BinaryExpr)
+			if !ok || !n.IsCond || be.Op != token.NEQ || !isNilLit(info, be.Y) {
+				return false
+			}
+			return fieldOfSelector(info, be.X) == val
+		}
+		branching := func(n *GNode) bool { return len(n.Succs) != 1 }
+		ok := len(keyC) == 1
+		detail := "the createStore key test was not found"
+		pos := f.Decl.Pos()
+		if ok {
+			pos = keyC[0].Ast.Pos()
+			starts := branchStarts(keyC, 1)
+			var valC []*GNode
+			r := g.Reach(starts, func(n *GNode) bool { return isPayloadTest(n) || calls(kSRRemove)(n) }, nil)
+			for _, n := range g.Nodes {
+				if !r.Seen[n.ID] {
+					continue
+				}
+				if isPayloadTest(n) {
+					valC = append(valC, n)
+				} else if branching(n) && !calls(kSRRemove)(n) {
+					ok = false
+					detail = fmt.Sprintf("`%s` (L%d) stands between the createStore record and the removal", g.nodeText(n), g.line(n))
+					pos = n.Ast.Pos()
+				}
+			}
+			if ok {
+				var st []int
+				if len(valC) == 0 {
+					st = starts
+				} else {
+					st = branchStarts(valC, 1)
+				}
+				offs := g.MustFollowFrom(st, calls(kSRRemove), branching)
+				if len(offs) > 0 {
+					ok = false
+					n := offs[0].Node
+					for _, o := range offs {
+						if o.Node.Ast != nil {
+							n = o.Node
+							break
+						}
+					}
+					detail = fmt.Sprintf("`%s` (L%d) lets a createStore record with a store name pass without StoreRepository.Remove", g.nodeText(n), g.line(n))
+					if n.Ast != nil {
+						pos = n.Ast.Pos()
+					}
+				}
+			}
+		}
+		c.Check(len(keyC) == 1, r5, "transactionLog.rollback: createStore record branch inventoried", f.Decl.Pos(), "one key test", fmt.Sprintf("%d createStore key tests", len(keyC)), nil)
+		c.Check(ok, r5, "transactionLog.rollback: a createStore record with a payload always reaches StoreRepository.Remove", pos, "straight line from the payload test to the removal",
+			"the store a dead transaction created can survive the replay of its log: "+detail+" - the replay restores the count only when the log ran past commitStoreInfo and removes the nodes and registry entries regardless, so a store the dead transaction had populated stays in the catalogue (GetStores lists it, OpenBtree opens it) with its root node gone", nil)
 	}
 }
